@@ -118,3 +118,81 @@ Proof.
       apply in_or_app. right. left. reflexivity. }
     apply in_encode_char_ascii in Hin; auto. subst c. eexists; reflexivity.
 Qed.
+
+(* ---------- the decoder only accepts encodings ---------- *)
+
+Lemma decode1_sound bs c rest :
+  decode1 bs = Some (c, rest) -> bs = encode_char c ++ rest /\ valid_char c = true.
+Proof.
+  unfold decode1. destruct bs as [|b0 t0]; [discriminate|].
+  destruct (b0 <? 128) eqn:E1.
+  { intros H; inversion H; subst. unfold encode_char, valid_char. rewrite E1.
+    split; [reflexivity|]. lia. }
+  destruct (b0 <? 192) eqn:E2; [discriminate|].
+  destruct (b0 <? 224) eqn:E3.
+  { destruct t0 as [|b1 t1]; [discriminate|]. unfold is_cont.
+    destruct ((128 <=? b1) && (b1 <? 192) && (128 <=? (b0 - 192) * 64 + (b1 - 128))) eqn:E; [|discriminate].
+    intros H; inversion H; subst; clear H.
+    set (v := (b0 - 192) * 64 + (b1 - 128)) in *.
+    assert (Hc : 128 <= v < 2048) by lia.
+    unfold encode_char, valid_char.
+    replace (v <? 128) with false by lia. replace (v <? 2048) with true by lia.
+    split; [|lia]. cbn [app]. f_equal; [|f_equal]; lia. }
+  destruct (b0 <? 240) eqn:E4.
+  { destruct t0 as [|b1 [|b2 t2]]; try discriminate. unfold is_cont.
+    set (v := (b0 - 224) * 4096 + (b1 - 128) * 64 + (b2 - 128)).
+    destruct ((128 <=? b1) && (b1 <? 192) && ((128 <=? b2) && (b2 <? 192)) && (2048 <=? v) && valid_char v) eqn:E; [|discriminate].
+    intros H; inversion H; subst; clear H.
+    apply andb_true_iff in E. destruct E as [E Hv].
+    assert (Hc : 2048 <= v < 65536) by lia.
+    unfold encode_char. replace (v <? 128) with false by lia. replace (v <? 2048) with false by lia.
+    replace (v <? 65536) with true by lia.
+    split; [|exact Hv]. cbn [app]. f_equal; [|f_equal; [|f_equal]]; lia. }
+  destruct (b0 <? 248) eqn:E5; [|discriminate].
+  destruct t0 as [|b1 [|b2 [|b3 t3]]]; try discriminate. unfold is_cont.
+  set (v := (b0 - 240) * 262144 + (b1 - 128) * 4096 + (b2 - 128) * 64 + (b3 - 128)).
+  destruct ((128 <=? b1) && (b1 <? 192) && ((128 <=? b2) && (b2 <? 192)) && ((128 <=? b3) && (b3 <? 192))
+            && (65536 <=? v) && (v <=? 1114111)) eqn:E; [|discriminate].
+  intros H; inversion H; subst; clear H.
+  assert (Hc : 65536 <= v <= 1114111) by lia.
+  unfold encode_char, valid_char. replace (v <? 128) with false by lia. replace (v <? 2048) with false by lia.
+  replace (v <? 65536) with false by lia.
+  split; [|lia]. cbn [app]. f_equal; [|f_equal; [|f_equal; [|f_equal]]]; lia.
+Qed.
+
+Lemma decode_fuel_sound fuel : forall bs s,
+  decode_fuel fuel bs = Some s -> encode s = bs /\ valid_str s = true.
+Proof.
+  induction fuel as [|f IH]; intros bs s H.
+  - destruct bs; [inversion H; subst; split; reflexivity|discriminate].
+  - destruct bs as [|b bs']; [inversion H; subst; split; reflexivity|].
+    cbn [decode_fuel] in H. destruct (decode1 (b :: bs')) as [[c rest]|] eqn:E1; [|discriminate].
+    destruct (decode_fuel f rest) as [s'|] eqn:E2; [|discriminate]. inversion H; subst.
+    apply decode1_sound in E1. destruct E1 as [E1 Hv]. apply IH in E2. destruct E2 as [E2 Hs].
+    split.
+    + unfold encode in *. cbn [flat_map]. rewrite E2. symmetry. exact E1.
+    + cbn [valid_str forallb]. unfold valid_str in Hs. rewrite Hv, Hs. reflexivity.
+Qed.
+
+Lemma decode_sound bs s : decode bs = Some s -> encode s = bs /\ valid_str s = true.
+Proof. apply decode_fuel_sound. Qed.
+
+(* UTF-8 is a prefix code: a string whose encoding starts another's is a prefix of it *)
+Lemma encode_prefix s' : forall s rest,
+  valid_str s' = true -> valid_str s = true -> encode s' ++ rest = encode s ->
+  exists t, s = s' ++ t.
+Proof.
+  induction s' as [|c s' IH]; intros s rest Hv' Hv H; [exists s; reflexivity|].
+  cbn [valid_str forallb] in Hv'. apply andb_true_iff in Hv'. destruct Hv' as [Hc Hs'].
+  unfold encode in H. cbn [flat_map] in H. rewrite <- app_assoc in H.
+  destruct s as [|d s].
+  - pose proof (encode_char_nonempty c) as Hne. cbn [flat_map] in H.
+    apply (f_equal (@length N)) in H. rewrite app_length in H. cbn [length] in H. lia.
+  - cbn [valid_str forallb] in Hv. apply andb_true_iff in Hv. destruct Hv as [Hd Hs].
+    cbn [flat_map] in H.
+    pose proof (decode1_encode_char c (flat_map encode_char s' ++ rest) Hc) as D1.
+    pose proof (decode1_encode_char d (flat_map encode_char s) Hd) as D2.
+    rewrite H in D1. rewrite D1 in D2. inversion D2; subst.
+    destruct (IH s rest Hs' Hs) as [t Ht]; [unfold encode; congruence|].
+    exists t. rewrite Ht. reflexivity.
+Qed.
